@@ -417,6 +417,7 @@ func TestReplay(t *testing.T) {
 	run.ReplayOne(t, spec)
 	run.ReplayOne(t, bigSpec)
 	run.ReplayOne(t, manySpec)
+	run.ReplayOne(t, sizeSpec)
 }
 
 func evMax(name string, v float64) { ev.Default.MaxOf(name, v) }
